@@ -168,6 +168,13 @@ func (ex *Ex) instantiate(asserts []*T, heap map[string]*T, rounds int) []*T {
 					}
 				}
 			}
+			// defining functions: the ensures of the function whose result the symbol names
+			if dc := w.definers()[app.Op]; dc != nil && !done["def:"+key] {
+				done["def:"+key] = true
+				if fact := ex.definerFact(st, app, dc); fact != nil {
+					newFacts = append(newFacts, fact)
+				}
+			}
 			// dispatch facts: method contracts of concrete types
 			for _, im := range imBySym[app.Op] {
 				for _, ms := range w.methodContracts()[im.Method] {
@@ -194,6 +201,82 @@ func (ex *Ex) instantiate(asserts []*T, heap map[string]*T, rounds int) []*T {
 		all = append(all, newFacts...)
 	}
 	return extra
+}
+
+type definer struct {
+	fn  *ssa.Function
+	ctr *Contract
+}
+
+// definers indexes contracts with a `defines f(params)` clause by spec symbol.
+func (w *World) definers() map[string]*definer {
+	if w.defIndex != nil {
+		return w.defIndex
+	}
+	w.defIndex = map[string]*definer{}
+	for fn, c := range w.Contracts {
+		if c.Defines != nil && c.Defines.Kind == "call" {
+			w.defIndex["f$"+c.Defines.Name] = &definer{fn, c}
+		}
+	}
+	return w.defIndex
+}
+
+// definerFact: requires ==> ensures, with result := app and parameters bound by matching the
+// defines-pattern (whose arguments must be plain parameter names).
+func (ex *Ex) definerFact(st *State, app *T, d *definer) *T {
+	w := ex.W
+	fn := d.fn
+	if fn.Signature.Results().Len() != 1 || len(d.ctr.Defines.Args) != len(app.Args) {
+		return nil
+	}
+	pst := st.Clone()
+	bound := map[string]bool{}
+	for i, a := range d.ctr.Defines.Args {
+		if a.Kind != "ident" {
+			return nil
+		}
+		for _, p := range fn.Params {
+			if p.Name() == a.Name {
+				if !w.SortOf(p.Type()).Eq(app.Args[i].S) {
+					return nil
+				}
+				pst.regs[p] = Val{T: app.Args[i]}
+				bound[p.Name()] = true
+			}
+		}
+	}
+	for _, p := range fn.Params {
+		if !bound[p.Name()] {
+			return nil // result depends on parameters the symbol does not mention
+		}
+	}
+	cf := &Frame{Fn: fn, Ctr: d.ctr, Name: w.funcName(fn), Entry: pst}
+	env := ex.newEnv(cf, pst)
+	env.pkgName = d.ctr.PkgName
+	rt := fn.Signature.Results().At(0).Type()
+	env.results = []SV{{T: app, Ty: SType{G: rt}}}
+	env.resNames = resultNames(fn.Signature)
+	var pres, posts []*T
+	for _, rq := range d.ctr.Requires {
+		t, err := ex.trBool(env, rq.E)
+		if err != nil {
+			return nil
+		}
+		pres = append(pres, t)
+	}
+	for _, en := range d.ctr.Ensures {
+		t, err := ex.trBool(env, en.E)
+		if err != nil {
+			w.warnf("definer %s: %v", cf.Name, err)
+			return nil
+		}
+		posts = append(posts, t)
+	}
+	if len(posts) == 0 {
+		return nil
+	}
+	return Implies(And(pres...), And(posts...))
 }
 
 // dispatchFact: dyn(recv)==T ==> inv(T) && ensures of T's method contract with result := app.
